@@ -180,7 +180,10 @@ func VerifC17RoundTrip() {
 		if byLines {
 			got, err = se.FindFromTimeWithMaxLines(begin*1000, maxLines)
 		} else {
-			got, err = se.FindByTimeAndResource(begin*1000, end*1000+999, res)
+			// the range is given in milliseconds and means whole seconds: any millisecond inside the first second selects it
+			off := rt.U64n("qbeginMs", 10)
+			rt.Assume(off < 1000)
+			got, err = se.FindByTimeAndResource(begin*1000+off, end*1000+999, res)
 		}
 		rt.Assert(err == nil, "searching never fails")
 		var want []int
